@@ -41,10 +41,10 @@ PROPS["C20"] = dict(
 PROPS["C18"] = dict(
     level="proof",
     technique="delegation structure generated from amount.rs (which std method each checked_*/operator/assign calls) over Lean models of the std integer methods; theorems on Int for all operands in range; complete boundary-grid differential check",
-    level_text="C18_checked_unsigned_iff / C18_checked_signed_iff prove, for all operands in u64 / i64, that each checked operation of the regenerated model returns r iff r is the exact integer result, representable, with non-zero divisor (signed rem: at every pair except (MIN,-1), where C18_rem_min_neg1 proves the deviation - a recorded known finding); operators panic iff checked is None, assign = operator, conversions and positive_sub exact. Binding a method to wrapping_*/saturating_* or an operator to the wrong checked method is representable in Gen and refutes the theorems. Session 4: C18_checked_signed_total, C18_checked_eq / C18_checked_none_iff (closed forms), C18_operator_exact, C18_assign_exact, C18_never_wraps, C18_exact_div_rem(_unique); compiler-inserted overflow panics are told apart from the library's own expect, so a plain operator is reported in the harness profile too.",
-    level_note="Trusted: Lean kernel; models of std's checked_* semantics (StdInt.lean) validated on the boundary grid; translator's recognition of `self.0.m(rhs.0).map(T)`, `self.checked_m(rhs).expect(..)`, `*self = *self op other`; to_signed/to_unsigned/positive_sub hand-modelled with a reviewed-shape check.",
+    level_text="C18_checked_unsigned_iff / C18_checked_signed_iff prove, for all operands in u64 / i64, that each checked operation of the regenerated model returns r iff r is the exact integer result, representable, with non-zero divisor (signed rem: at every pair except (MIN,-1), where C18_rem_min_neg1 proves the deviation - a recorded known finding); operators panic iff checked is None, assign = operator, conversions and positive_sub exact. Binding a method to wrapping_*/saturating_* or an operator to the wrong checked method is representable in Gen and refutes the theorems. Session 4: C18_checked_signed_total, C18_exact_div_rem(_unique), C18_checked_abs (new content); C18_checked_eq / C18_checked_none_iff (closed forms), C18_operator_exact, C18_assign_exact, C18_never_wraps are corollaries stated for readability. Review round: C18_spec_column_is_exact (the driver's spec column is the `exact` of the theorems), C18_ranges_are_u64_i64 (the two ranges as literals); abs is modelled as the plain i64::abs it is: C18_abs_checked_profile (with overflow checks: |a|, compiler-inserted panic exactly at MIN), C18_abs_unchecked_profile (without: returns MIN at MIN - a wrapped value; abs is outside the statement's list, recorded as an observation in DESIGN 14.10), C18_abs_vs_checked_abs. For the fifteen operator / assigning forms a compiler-inserted overflow panic is reported as MISMATCH (so a plain operator is noticed in the harness profile too); for abs the kind of the panic is part of the result line and is what the model predicts. A body the translator does not recognise falls back to the reviewed row (EXTRACT-NOTE in the evidence); Gen.shape_* is never the subject of a theorem (it cannot be false), Gen.extracted_shape_* reports what was read.",
+    level_note="Trusted: Lean kernel; models of std's checked_* semantics (StdInt.lean) validated on the boundary grid; translator's recognition of `self.0.m(rhs.0).map(T)`, `self.checked_m(<own 2nd parameter>).expect(..)`, `*self = *self op <own 2nd parameter>` (anything else: reviewed row kept, tie differential); to_signed / to_unsigned / positive_sub / checked_abs / abs / signum hand-modelled, tied to the code by the grid only (their token shapes are reported, not proved); the model of abs without overflow checks is validated against i64::wrapping_abs, not against a release build of the library.",
     design_ref="DESIGN.md §6 C18",
-    rule="complete grid over ~50 boundary values per type x 5 ops x {checked, operator, assign}, conversions, positive_sub, random near-boundary pairs.",
+    rule="complete grid over ~50 boundary values per type x 5 ops x {checked, operator, assign}, conversions, positive_sub, random near-boundary pairs; explicit corner pairs, zero divisors / dividends, multiplication by every power of two around the overflow thresholds.",
     assumptions=["std integer methods behave as documented (modelled in Model/StdInt.lean, validated differentially)"],
     gen_items=["amount.Amount", "amount.SignedAmount"],
 )
@@ -124,10 +124,10 @@ PROPS["C12"] = dict(
 PROPS["C15"] = dict(
     level="proof",
     technique="Lean 4 theorems: byte-level model of parse_signed_to_piconero / from_str_in / fmt_piconero_in (denomination tables generated from source) proved equal to an exact-decimal spec for every byte string and denomination; round-trip theorems; grammar-directed + junk differential check",
-    level_text="C15_parse_iff: for every byte string, denomination and signedness the model parser returns r iff the exact-decimal spec does (grammar -?D*(.D*)?, at most `decimals` fraction digits, <= 50 bytes, |r| <= 2^63-1, unsigned refuses '-'); C15_never_wraps / C15_overflow_iff: no intermediate wrap; C15_fmt_exact: exact expansion with the fixed number of decimals incl. i64::MIN; C15_parse_fmt(_suffix): parse(format a) = a with and without suffix; C15_precision_table ties everything to the regenerated precision table. Real code vs model vs spec on ~360k (quick) operations. Session 4: C15_parse_fmt_iff, C15_parse_fmt_out_of_range, C15_display_roundtrip, C15_fmt_injective, and C15_parser_constants / C15_checked_steps (the 50-byte cap, the three checked arithmetic sites and both from_str_in shapes are regenerated from the source).",
+    level_text="C15_parse_iff: for every byte string, denomination and signedness the model parser returns r iff the exact-decimal spec does (grammar -?D*(.D*)?, at most `decimals` fraction digits, <= 50 bytes, |r| <= 2^63-1, unsigned refuses '-'); C15_never_wraps / C15_overflow_iff: no intermediate wrap; C15_fmt_exact: exact expansion with the fixed number of decimals incl. i64::MIN; C15_parse_fmt(_suffix): parse(format a) = a with and without suffix; C15_precision_table ties everything to the regenerated precision table. Real code vs model vs spec on ~360k (quick) operations. Session 4: C15_parse_fmt_iff, C15_parse_fmt_out_of_range, C15_fmt_injective, C15_display_roundtrip (a corollary through the hand-written model of Display; Display's tie to the code is the harness, incl. 27 flagged format specs that must print what {} prints), and C15_parser_constants / C15_checked_steps / C15_loop_uses_gen_steps / C15_rescale_uses_gen_step: the 50-byte cap is observed on every run; the three arithmetic sites are regenerated when the translator recognises three std method calls mul, add, mul (a wrapping_* / saturating_* site then refutes the theorems, and one iteration of the model's loops is proved to be that method), otherwise the reviewed methods are kept with an EXTRACT-NOTE and the tie is the differential run. Nothing is proved about the shapes of the from_str_in bodies (Gen.shape_* cannot be false; Gen.extracted_shape_* reports what was read). Review round: C15_parse_exact states both sign directions (a '-' literal never gives a positive result), C15_parse_sign. The signed statements range over every integer of magnitude < 2^64, a superset of i64.",
     level_note="Trusted: Lean kernel; model/Rust correspondence differential; Rust's u64 Display assumed canonical decimal (validated by the format ops); chars()-vs-bytes argument for valid UTF-8 documented in Model/AmountText.lean. Reading decisions (\".\" = 0, \"-0\" negative for unsigned) in DESIGN.md §8.",
     design_ref="DESIGN.md §6 C15",
-    rule="grammar-directed literals (digit counts 0..50, point at every position, magnitudes around 2^63/2^64, 12/13 decimals, signs) + junk stream (other ASCII, multi-byte UTF-8, two dots, inner signs, spaces) x 5 denominations x {unsigned, signed}; formatting on boundary and random values.",
+    rule="grammar-directed literals (digit counts 0..50, point at every position, magnitudes around 2^63/2^64, 12/13 decimals, signs) + junk stream (other ASCII, multi-byte UTF-8, two dots, inner signs, spaces) x 5 denominations x {unsigned, signed}; formatting on boundary and random values; Display through flagged format specs; digits before the sign; values in [2^64, 2^64 + 10^decimals) written with a fraction.",
     assumptions=["permissive grammar reading of DESIGN.md §8"],
     gen_items=["amount.precision", "amount.denom_display", "amount.denom_fromstr", "amount.parse."],
 )
